@@ -93,12 +93,27 @@ where
     }
 }
 
+/// Always fails: used for the options LiPE parses but does not support.
+fn disabled_option(input: &mut &str) -> PResult<()> {
+    cut_err(fail.context(expected("unsupported_global_option"))).parse_next(input)
+}
+
 impl Parseable for GlobalOption {
     fn parse(input: &mut &'_ str) -> PResult<GlobalOption> {
         alt((
             nullary!("-depth", GlobalOption::Depth),
-            unary!("-maxdepth", GlobalOption::MaxDepth, u32::parse),
-            unary!("-mindepth", GlobalOption::MinDepth, u32::parse),
+            // Disabled in LiPE: the value is still checked, then the option is refused instead of
+            // reaching RunOptions::update which has nowhere to store it
+            unary!(
+                "-maxdepth",
+                GlobalOption::MaxDepth,
+                terminated(u32::parse, disabled_option)
+            ),
+            unary!(
+                "-mindepth",
+                GlobalOption::MinDepth,
+                terminated(u32::parse, disabled_option)
+            ),
             unary!("-threads", GlobalOption::Threads, u32::parse),
         ))
         .context(label("global_option"))
